@@ -287,6 +287,16 @@ static void run_generated(std::uint64_t seed, long nprog) {
 			if(z.empty() || z.size() > 3) continue;
 		} else { build_embedded(z, 0, 1, rng, kindw == 0); }
 		build_embedded(z, 10, 11, rng, rng.coin(30));
+		if(rng.coin(20)) {   // re-based operands (C19): the same index bases -3..3 (mixed signs included) on both views
+			int RD = rank_of(regs[1]);
+			if(RD >= 1) {
+				int kk = static_cast<int>(rng.range(1, std::min<long>(RD, 3)));
+				std::vector<long> b; for(int j = 0; j < kk; ++j) b.push_back(rng.range(-3, 3));
+				bool both = rank_of(regs[11]) == RD && any_exts(regs[1]) == any_exts(regs[11]);
+				emit_v(1, 1, "reindexed", b);
+				if(both) emit_v(11, 11, "reindexed", b);
+			}
+		}
 		bool same = rank_of(regs[1]) == rank_of(regs[11]) && any_exts(regs[1]) == any_exts(regs[11]);
 		long n = any_sizes(regs[1])[0];
 		long ne = any_num_elements(regs[1]);
